@@ -23,7 +23,14 @@ func run(c *core.Ctx) {
 	if kit.ModelCheck(c, "SecureChannel.tla", mc, tlc.Options{Workers: 16}) == nil {
 		return
 	}
-	scs := chanreplay.Parse(c, kit.Dedupe(kit.Generate(c, "Gen_SecureChannel.tla", gen, tlc.Options{})))
+	raws := kit.Generate(c, "Gen_SecureChannel.tla", gen, tlc.Options{})
+	// chains of hand-offs of one side over a short ping-pong script
+	chain := "Gen_C15_chain_quick.cfg"
+	if c.Thorough() {
+		chain = "Gen_C15_chain.cfg"
+	}
+	raws = append(raws, kit.Generate(c, "Gen_SecureChannel.tla", chain, tlc.Options{})...)
+	scs := chanreplay.Parse(c, kit.Dedupe(raws))
 	if c.IsBroken() {
 		return
 	}
@@ -93,5 +100,5 @@ func run(c *core.Ctx) {
 	} else {
 		chanreplay.ValidateRepoTestTraces(c, "./stream/")
 	}
-	c.Set("rule", "behaviours = 3 traffic scripts (single/multi-frame, buffered and direct senders, both receive APIs, frames queued unread) with export+import attempted by either endpoint at EVERY position (chains of 2 in thorough), plus damaged blobs (every strict prefix; corrupted magic / version bytes), enumerated by TLC from Gen_SecureChannel (mode script); every behaviour replayed on two real keyed streams; the model predicts refusal vs success of every export and the continued exchange")
+	c.Set("rule", "behaviours = 4 traffic scripts (single/multi-frame, buffered and direct senders, both receive APIs, frames queued unread, keyed-but-not-encrypting with secrets) with export+import attempted by either endpoint at EVERY position (chains of 2 in thorough), chains of 2 (quick) / 3 (thorough) hand-offs of one side over a ping-pong script, plus damaged blobs (every strict prefix; corrupted magic / version bytes), enumerated by TLC from Gen_SecureChannel (mode script); every behaviour replayed on two real keyed streams; the model predicts refusal vs success of every export and the continued exchange")
 }
